@@ -70,21 +70,28 @@ def jobs(tier):
     q = tier == 'quick'
     cur = {t['name']: t for t in T.curated()}
     out = []
-    plans = [('tb2', ['A', 'B']), ('hyb2', ['A', 'B']), ('tb_ev', ['A'])]
+    plans = [('tb2', ['A', 'B'], True), ('hyb2', ['A', 'B'], True), ('tb_ev', ['A'], True),
+             # simulators that can be in the middle of a step when another one fails: no lazy wait / no connection
+             ('tb2', ['A', 'B'], False), ('hyb2', ['A'], False), ('chain3ev', ['A', 'C'], True)]
     if not q:
-        plans += [('tbloop', ['A', 'B']), ('weak2', ['A']), ('chain3', ['B']), ('tbchain3', ['A', 'B', 'C']), ('fanin', ['C'])]
-    for name, culprits in plans:
+        plans += [('tbloop', ['A', 'B'], True), ('weak2', ['A'], True), ('chain3', ['B'], True), ('tbchain3', ['A', 'B', 'C'], True), ('fanin', ['C'], True),
+                  ('tbchain3', ['A', 'B', 'C'], False), ('chain3ev', ['B'], False)]
+    for name, culprits, lazy in plans:
         t = cur[name]
         for culprit in culprits:
             for kind in ('raise', 'reset', 'eof'):
                 for stage in ('after', 'before'):
                     if q and stage == 'before' and kind != 'reset':
                         continue
+                    if q and (not lazy or len(t['types']) > 2) and kind == 'eof':
+                        continue
                     masks = [[], sorted(t['types'])] if q else list(T.sync_masks(t, 'all' if len(t['types']) <= 2 else 'extremes'))
+                    if len(t['types']) > 2 and q:
+                        masks = [[]]
                     for sync in masks:
-                        cfg = {'until': 3, 'K': 2, 'cache': True, 'lazy': True, 'D': 0, 'sync': sync, 'salt': 0}
+                        cfg = {'until': 3, 'K': 2, 'cache': True, 'lazy': lazy, 'D': 0, 'sync': sync, 'salt': 0}
                         if name == 'weak2':
                             cfg.update({'no_self': ['A', 'B'], 'until': 2, 'K': 3})
-                        out.append({'id': f"{name}|{culprit}|{kind}|{stage}|sync={''.join(sync) or '-'}", 'harness': 'vk.kernels.c14:crash',
+                        out.append({'id': f"{name}|{culprit}|{kind}|{stage}|sync={''.join(sync) or '-'}|lazy={int(lazy)}", 'harness': 'vk.kernels.c14:crash',
                                     'params': {'topo': t, 'cfg': cfg, 'culprit': culprit, 'kind': kind, 'stage': stage}, 'budget_s': 300})
     return out
